@@ -18,3 +18,12 @@ Definition covers (a b : content) (d : list dentry) : bool :=
           (keys a ++ keys b).
 Definition is_diff_b (a b : content) (d : list dentry) : bool :=
   forallb (entry_ok a b) d && covers a b d && sorted_keys (map (fun e => fst (fst e)) d).
+
+(* ---------------- schema delta, declaratively ---------------- *)
+(* how many columns were added / dropped / renamed / retyped between two schemas (by tag) *)
+Definition n_cols (f : col -> bool) (s : tschema) : N := N.of_nat (length (filter f s)).
+Definition schema_delta_counts (sa sb : tschema) : N * N * N * N :=
+  (n_cols (fun c => negb (has_id (c_id c) sa)) sb,
+   n_cols (fun c => negb (has_id (c_id c) sb)) sa,
+   n_cols (fun c => match find_col (c_id c) sa with Some o => negb (c_name o =? c_name c) | None => false end) sb,
+   n_cols (fun c => match find_col (c_id c) sa with Some o => negb (c_ty o =? c_ty c) | None => false end) sb).
